@@ -309,7 +309,7 @@ def collection_cell(P, A):
     ids = [A['s%d' % i] for i in range(N)]
     x = A.get('x')
     mids = [A['m%d' % j] if ('m%d' % j) in A else P['mids'][j] for j in range(k)]
-    rc_mid = A.get('m_rc', '1')
+    rc_mid = A['m_rc'] if 'm_rc' in A else P.get('rc_mid', '1')
     sig = None
     with World(opt=P.get('opt', False)) as W:
         mt, mc_mod, exc = W.mt, W.mc, W.exc
@@ -351,13 +351,16 @@ def collection_cell(P, A):
             sig = 'construction-raised-' + type(made.exc).__name__
         else:
             mc = made.result
+            pre_completed = B.call(lambda: (mc.completed, mc.ro.completed))
             got_ids = [mr.message_id for mr in mc.mos_readers]
             want_ids = [int(mids[j]) for j in order]
             out = call(lambda: mc.merge(strict=strict), exc)
             B.hit()
             ns = [w for w in out.warns if w.category.__name__ == 'MosMergeNonStrictWarning']
             others = [w.category.__name__ for w in out.warns if w.category.__name__ != 'MosMergeNonStrictWarning']
-            if got_ids != want_ids:
+            if pre_completed.raised or pre_completed.result != (False, False):
+                sig = 'completed-before-any-merge'
+            elif got_ids != want_ids:
                 sig = 'readers-not-in-ascending-numeric-order'
             elif strict and fold_exc is not None and not (out.raised and type(out.exc) is type(fold_exc)):
                 sig = 'strict-error-not-propagated'
@@ -407,8 +410,15 @@ def accept_cell(P, A):
     with World(opt=P.get('opt', False)) as W:
         mt, mc_mod, exc = W.mt, W.mc, W.exc
         handles = []
+        mid_of = [10 + i for i in range(n)]
+        if P.get('same_mid') and 'roCreate' in kinds and n > 1:
+            # another message repeats the roCreate's message ID (IDs are not guaranteed unique)
+            j = [i for i in range(n) if kinds[i] != 'roCreate'][0]
+            mid_of[j] = mid_of[kinds.index('roCreate')]
+        if P.get('blank_roid') is not None and P['blank_roid'] < n:
+            rids[P['blank_roid']] = None        # <roID/>: no ID is not the same ID
         for i, kind in enumerate(kinds):
-            mid = str(10 + i)
+            mid = str(mid_of[i])
             if kind == 'roCreate':
                 b = ro_builder(['a', 'b'], mid, ro_id=rids[i])
             else:
@@ -427,7 +437,7 @@ def accept_cell(P, A):
         B.hit()
         one_id = True
         for r in rids[1:]:
-            if r != rids[0]:
+            if (r is None) != (rids[0] is None) or (r is not None and r != rids[0]):
                 one_id = False
         want = n >= 1 and one_id and n_rc == 1 and n_rd <= 1 and (allow or n_rd == 1)
         if want:
@@ -435,12 +445,12 @@ def accept_cell(P, A):
                 sig = 'valid-collection-rejected-' + type(out.exc).__name__
             else:
                 mc = out.result
-                rc_mid = 10 + kinds.index('roCreate')
+                rc_mid = mid_of[kinds.index('roCreate')]
                 if type(mc.ro).__name__ != 'RunningOrder' or mc.ro.message_id != rc_mid:
                     sig = 'ro-is-not-the-roCreate'
                 elif len(mc.mos_readers) != n - 1 or any(mr.mos_type.__name__ == 'RunningOrder' for mr in mc.mos_readers):
                     sig = 'readers-still-contain-roCreate'
-                elif [mr.message_id for mr in mc.mos_readers] != [10 + i for i in range(n) if kinds[i] != 'roCreate']:
+                elif sorted(mr.message_id for mr in mc.mos_readers) != sorted(mid_of[i] for i in range(n) if kinds[i] != 'roCreate'):
                     sig = 'readers-wrong'
                 elif mc.ro_id != rids[0]:
                     sig = 'ro-id-wrong'
@@ -499,6 +509,43 @@ def s3_listing_cell(P, A):
         if B.Ctx.replay:
             B.note(sig=sig, observed=B.conc(out.exc) if out.raised else out.result,
                    expected=[k for k in all_keys if k.endswith(suffix)], pages=shape)
+    return sig is None
+
+
+def s3_reread_cell(P, A):
+    """An S3 object read again after its content changed yields the new content (no stale copies), for
+    MosFile.from_s3, MosReader.from_s3 (mos_object) and a second MosCollection.from_s3."""
+    sid, sid2 = A['s0'], A['s1']
+    sig = None
+    with World() as W:
+        mt, mc_mod, exc = W.mt, W.mc, W.exc
+        key = W.doc(msg_builder('roStoryDelete', sid, '12'), kind='s3', name='prefix/a.mos.xml')
+        rc_key = W.doc(ro_builder([sid, sid2], '5'), kind='s3', name='prefix/rc.mos.xml')
+        W.pages = [{'Contents': [{'Key': rc_key}, {'Key': key}]}]
+        first = call(lambda: mt.MosFile.from_s3('bucket', key), exc)
+        mr = call(lambda: mc_mod.MosReader.from_s3('bucket', key), exc)
+        mc1 = call(lambda: mc_mod.MosCollection.from_s3(bucket_name='bucket', prefix='prefix/', allow_incomplete=True), exc)
+        # the same key now holds a different message
+        W.doc(msg_builder('roStoryMove', sid2, '13'), kind='s3', name='prefix/a.mos.xml')
+        second = call(lambda: mt.MosFile.from_s3('bucket', key), exc)
+        B.hit()
+        if first.raised or second.raised or mr.raised or mc1.raised:
+            sig = 'raised'
+        elif type(first.result).__name__ != 'StoryDelete' or type(second.result).__name__ != 'StoryMove':
+            sig = 'stale-class-after-content-change'
+        elif second.result.message_id != 13:
+            sig = 'stale-content-after-content-change'
+        else:
+            o = call(lambda: mr.result.mos_object, exc)
+            # (the reader keeps the class it determined when it was created; only the content is re-read)
+            if o.raised or o.result.message_id != 13:
+                sig = 'reader-restores-stale-content'
+            else:
+                mc2 = call(lambda: mc_mod.MosCollection.from_s3(bucket_name='bucket', prefix='prefix/', allow_incomplete=True), exc)
+                if mc2.raised or [r.mos_type.__name__ for r in mc2.result.mos_readers] != ['StoryMove']:
+                    sig = 'second-collection-sees-stale-content'
+        if B.Ctx.replay:
+            B.note(sig=sig, observed=sig, expected='every read reflects the current content of the object')
     return sig is None
 
 
@@ -589,6 +636,12 @@ def sources_cell(P, A):
         with World(parser_stub=False) as W:
             W.objects['key'] = data
             res['s3'] = B.call(lambda: mt.MosFile.from_s3('bucket', 'key'))
+            if name == 'utf8-bom':
+                # the roElementAction document: the ElementAction entry points classify like MosFile's
+                res['ea-file'] = B.call(lambda: mt.ElementAction.from_file(path))
+                res['ea-bytes'] = B.call(lambda: mt.ElementAction.from_string(data))
+                res['ea-s3'] = B.call(lambda: mt.ElementAction.from_s3('bucket', 'key'))
+                res['concrete-class-file'] = B.call(lambda: mt.EAStorySwap.from_file(path))
         B.hit()
         ref = res['bytes']
         for k, o in res.items():
@@ -765,6 +818,9 @@ SCENARIOS = {
     'same-path-twice': ['roCreate', 'roStoryAppend', '=1', 'roDelete'],
     'roCreate-path-twice': ['roCreate', '=0', 'roDelete'],
     'latin1-file': ['roCreate', 'latin1-roStoryDelete', 'roDelete'],
+    'non-ascii-content': ['roCreate', 'roStoryAppend-nonascii', 'roDelete'],
+    'bad-message-id': ['roCreate', 'roStoryMove@abc', 'roDelete'],
+    'blank-message-id': ['roCreate', 'roStoryMove@', 'roDelete'],
 }
 
 
@@ -781,7 +837,16 @@ def cli_merge_cell(P, A):
             if spec.startswith('='):
                 paths.append(paths[int(spec[1:])])      # the very same path listed again
                 continue
-            kind, _, mid = spec.partition('@')
+            kind, at, mid = spec.partition('@')
+            if at and not mid.isdigit():
+                # a classifiable message whose messageID is not a number: the library fails with a built-in
+                # exception; the command line must still report an error and exit 2
+                paths.append(W.doc(msg_builder(kind, 'a', mid or None), kind='file'))
+                continue
+            if kind == 'roStoryAppend-nonascii':
+                paths.append(W.doc(lambda: B.raw(lambda: M.story_append(
+                    [B.story('n\u00e9', slug='caf\u00e9 \u20ac \u0416', body=[T('p', '\u00fcber')])], msg_id=str(10 + i))), kind='file'))
+                continue
             if kind.endswith('!'):
                 paths.append(W.doc(msg_builder(kind[:-1], 'zz-unknown', mid or str(10 + i)), kind='file'))
             else:
